@@ -514,6 +514,18 @@ _patch_methods("job", _new_run=_new_run_stub, _run_command=_run_command_stub, _c
                _noskip=lambda self, run, a, b: _ev("noskip"), _skip=lambda self, run, h: _ev("skip"),
                _outdated_dynamic=lambda self, run, a, b: _ev("outdated_dynamic"),
                _reset_step_to_pending=lambda self, step: _ev("reset_step_to_pending"))
+# _drain_for_unexpected_input_changes: the job functions see the event (and must raise it exactly for unexpected input
+# changes); the function itself is verified: it puts the scheduler into the draining state, whatever the options of the
+# build are (C03: "the build stops dispatching new steps" -- also with --keep-going, which only spares ordinary failures)
+_dr = engine.REGISTRY["stepup/core/executor.py::Executor._drain_for_unexpected_input_changes"]
+_dr.verify = True
+_dr.props = ["C03", "C05"]
+_dr.note = ""
+_dr.args = dict(self=lambda a: ty.ObjOf(Executor, dict(
+    scheduler=ty.ObjOf(Scheduler, dict(draining=ty.Bool), name="Scheduler"), reporter=ty.Make(Reporter),
+    keep_going=ty.Bool), name="Executor").fresh("self"))
+_dr.ensures = lambda self: self.scheduler.draining == True  # noqa: E712
+_dr.modifies = ["self.scheduler.draining"]
 # _classify_execution keeps its verified contract; the job functions see this exported summary of it
 engine.REGISTRY["stepup/core/executor.py::Executor._classify_execution"].impl = None
 
@@ -555,6 +567,12 @@ def _execute_finish(c, outcome, args, old):
         return
     c.prove("rehash_before_launch_before_full_rehash_before_completion",
             rehash[0].index < launch[0].index < full[0].index < cls[0].index < done[0].index, kind="post")
+    # what an earlier run of the step added to the workflow (created steps, announced inputs and outputs, registered
+    # patterns) is withdrawn before the command starts -- on every launch: the earlier run may have ended without
+    # leaving any record (the director was killed: C05), in one transaction of its own
+    resets = [e for e in t if e.kind == "reset_for_rerun"]
+    c.prove("reset_before_every_launch", tm.mk_bool(
+        len(resets) == 1 and rehash[0].index < resets[0].index < launch[0].index and _in_one_span(t, resets)), kind="post")
     c.prove("completed_with_the_classified_hash", done[0].hash is cls[0].result[0] and done[0].wants_defer is cls[0].result[1], kind="post")
     writes = [e for e in t if e.kind in ("update_file_hashes", "mark_completed", "set_outcome") and e.index > full[0].index]
     c.prove("completion_writes_in_one_transaction", _in_one_span(t, writes + cls), kind="post")
